@@ -33,14 +33,17 @@ class MockSupportPluginReporter : public MockFailureReporter
 {
     UtestShell& test_;
     TestResult& result_;
+    bool failureReported_;
 public:
     MockSupportPluginReporter(UtestShell& test, TestResult& result)
-        : test_(test), result_(result)
+        : test_(test), result_(result), failureReported_(false)
     {
     }
 
     virtual void failTest(const MockFailure& failure) CPPUTEST_OVERRIDE
     {
+        if (failureReported_) return;
+        failureReported_ = true;
         result_.addFailure(failure);
     }
 
